@@ -81,11 +81,19 @@ func termOf(v ssa.Value, depth int, onpath map[ssa.Value]bool) *Term {
 				if st := singleStore(a); st != nil {
 					return rec(st.Val)
 				}
+				if fwd := forwardedStore(x); fwd != nil {
+					return rec(fwd)
+				}
 				name := a.Comment
 				if name == "" {
 					name = "tmp"
 				}
 				return &Term{Op: "local", Name: name, V: v, Args: nil}
+			}
+			// block-local store forwarding for captured variables / multi-store cells:
+			//   err = f(); if err != nil   (err captured by a closure) reads what was just stored
+			if fwd := forwardedStore(x); fwd != nil {
+				return rec(fwd)
 			}
 			t := rec(x.X)
 			return t
@@ -440,4 +448,36 @@ func MNamedConst(c *types.Const) M {
 		}
 		return types.Identical(k.Type(), c.Type()) && constant.Compare(k.Value, token.EQL, c.Val())
 	}
+}
+
+// forwardedStore returns the value stored to the cell read by load, when that store
+// precedes the load in the same block with no call in between.
+func forwardedStore(load *ssa.UnOp) ssa.Value {
+	switch load.X.(type) {
+	case *ssa.FreeVar, *ssa.Alloc, *ssa.Global:
+	default:
+		return nil
+	}
+	b := load.Block()
+	if b == nil {
+		return nil
+	}
+	idx := -1
+	for i, in := range b.Instrs {
+		if in == ssa.Instruction(load) {
+			idx = i
+			break
+		}
+	}
+	for i := idx - 1; i >= 0; i-- {
+		switch x := b.Instrs[i].(type) {
+		case *ssa.Store:
+			if x.Addr == load.X {
+				return x.Val
+			}
+		case ssa.CallInstruction:
+			return nil
+		}
+	}
+	return nil
 }
